@@ -46,6 +46,10 @@ def run(ctx):
     exprs, plans = [], []
     for n in range(n_ds):
         d = gen.any_dataset(rng, 'cf1d', ny=10, nx=20) if n == 0 else gen.any_dataset(rng)
+        if n % 3 == 1:
+            # grid dimensions carrying index coordinates with unsorted labels: cells are addressed by position
+            d.ds = gen.label_dimensions(rng, d.ds, [x for k in d.spec['kinds'].values() for x in k])
+            ctx.count('grid dimensions with unsorted labels')
         flav = FLAVOUR[d.family]
         ds = d.ds
         names = Names()
@@ -291,6 +295,49 @@ def run(ctx):
                     ctx.report('correspondence', f'{cname}: model Select.extract {m_code, m_labels} and implementation '
                                f'{impl} differ', dict(case, call=cname), found_input=False)
 
+    # a long request list (more than 1024 points) with a few misses late in it: 'error' names exactly those, 'drop' keeps the
+    # others under their original positions
+    if plans:
+        dL = gen.cf1d(rng, ny=4, nx=5, bounds=True)
+        gen.add_data_vars(rng, dL.ds, dL.spec['kinds'], n_extra_max=1)
+        polysL = pm.impl_polygons(dL.ds.ems)
+        cents = [shapely.Polygon(p).representative_point() for p in polysL]
+        nL = 1100 if quick else 2300
+        reqs = [cents[k % len(cents)] for k in range(nL)]
+        miss_at = sorted({1030, nL - 5, nL - 700 if nL > 2000 else 1077})
+        far = Point(max(p.x for p in cents) + 50.0, 0.0)
+        for k in miss_at:
+            reqs[k] = far
+        caseL = {'dataset': dL.spec['label'], 'op': 'select_points', 'requests': nL, 'misses_at': miss_at}
+        ctx.case((dL.spec['label'], 'long list'), True)
+        ctx.count('op:long_request_list')
+        try:
+            dL.ds.ems.select_points(reqs)
+            ctx.report('property', f'select_points of {nL} requests: points {miss_at} miss the model but no error was raised', caseL)
+        except point_extraction.NonIntersectingPoints as e:
+            got = sorted(int(x) for x in e.indexes)
+            if got != miss_at:
+                ctx.report('property', f'select_points of {nL} requests: the error names points {got}, the points that miss are {miss_at}', caseL)
+        except Exception as e:     # noqa: BLE001
+            ctx.report('property', f'select_points of {nL} requests: {type(e).__name__}: {e}', caseL)
+        r = attempt(lambda: dL.ds.ems.select_points(reqs, missing_points='drop'))
+        if r[0] != 'ok':
+            ctx.report('property', f'select_points(drop) of {nL} requests failed: {r[1]}', caseL)
+        else:
+            labels = [int(x) for x in r[1]['point'].values]
+            if labels != [k for k in range(nL) if k not in miss_at]:
+                ctx.report('property', f'select_points(drop) of {nL} requests: rows labelled {labels[:5]}..{labels[-5:]} ({len(labels)} rows)', caseL)
+            else:
+                fv = next((str(v) for v in r[1].data_vars), None)
+                if fv is not None:
+                    gd = dL.spec['kinds']['face']
+                    src = dL.ds[fv]
+                    for row, lab in list(enumerate(labels))[::97] + [(len(labels) - 1, labels[-1])]:
+                        cell = lab % len(cents)
+                        jj, ii = divmod(cell, dL.ds.sizes[gd[1]])
+                        if not nan_equal(r[1][fv].isel(point=row).values, src.isel({gd[0]: jj, gd[1]: ii}).values):
+                            ctx.report('property', f'select_points(drop) of {nL} requests: row {row} (request {lab}) is not the value at cell {cell}', caseL)
+                            break
     # selecting does not alter the dataset it selects from (values, attributes, coordinates, variable set)
     for d0, snap in snapshots.values():
         ctx.count('input_unchanged_after_all_selections')
